@@ -518,25 +518,10 @@ import os
 from exactly_lib.impls.instructions.multi_phase import change_dir
 
 
-def _chdir(interp, args, kwargs):
-    """os.chdir: changes the current directory of this process (ghost `cwd`, event `chdir`) or fails without
-    changing it."""
-    from pyvc.interp import PyRaise
-    (p,) = args
-    k = interp.st.choose(4)
-    if k == 1:
-        raise PyRaise(FileNotFoundError(2, 'No such file or directory'))
-    if k == 2:
-        raise PyRaise(NotADirectoryError(20, 'Not a directory'))
-    if k == 3:
-        raise PyRaise(PermissionError(13, 'Permission denied'))
-    interp.st.ghost['cwd'] = p
-    interp.st.emit('chdir', p)
-    return None
-
-
-M.model(os.chdir, _chdir)
-M.trust('os.chdir(p) sets the current directory of this process to p, or raises OSError and leaves it unchanged')
+# os.chdir / os.getcwd: the ghost file system of the engine (pyvc/fsmodel.py): chdir(p) sets the current directory
+# (ghost `cwd`, event ('chdir', p)) or raises FileNotFoundError / NotADirectoryError and leaves it unchanged.
+M.trust('os.chdir(p) sets the current directory of this process to p, or raises OSError and leaves it unchanged '
+        '(pyvc/fsmodel.py)')
 M.assume('a child process has its own current directory: nothing a child does changes the cwd of Exactly '
          '(operating system semantics); the cwd of Exactly changes only through os.chdir (check `chdir-call-sites`)')
 
@@ -573,13 +558,13 @@ def _resolved_dir(trace):
 M.contract('exactly_lib.impls.instructions.multi_phase.change_dir:InstructionEmbryo.custom_main',
            params=dict(self=Inst(change_dir.InstructionEmbryo, destination=Iface(PathSdvI)),
                        environment=Iface(PathResolvingEnvI)),
-           may_raise=(PermissionError,),
+           old=lambda: os.getcwd(),
            ensures={
-               'success: the current directory is the resolved destination': lambda result, trace, ghost:
-               implies(result is None, ghost.get('cwd') == _resolved_dir(trace)
+               'success: the current directory is the resolved destination': lambda result, trace:
+               implies(result is None, os.getcwd() == _resolved_dir(trace)
                        and [e[1] for e in trace if e[0] == 'chdir'] == [_resolved_dir(trace)]),
-               'error message: the current directory is unchanged': lambda result, trace, ghost:
-               implies(result is not None, 'cwd' not in ghost and [e for e in trace if e[0] == 'chdir'] == []),
+               'error message: the current directory is unchanged': lambda result, trace, old:
+               implies(result is not None, os.getcwd() == old and [e for e in trace if e[0] == 'chdir'] == []),
            }, raises_only=())
 
 
@@ -669,6 +654,11 @@ def _is_current_view(proc_exe_settings, settings):
         and (e is None if settings.environ() is None
              else (e is not None and isinstance(e, _types.MappingProxyType) and e == settings.environ()))
 
+
+from pyvc import models as _engine_models
+
+# MappingProxyType over a symbolic map: the engine's live read-only view (this module's functions see this model)
+M.model(_types.MappingProxyType, _engine_models.m_mappingproxy)
 
 M.contract(P_EXE + ':_PartialExecutor._env_vars__read_only', params=dict(self=EXECUTOR), inline=True,
            ensures={'a read-only view of the current non-act set': lambda self, result:
@@ -890,7 +880,7 @@ def _default_environ_check(ctx):
 from exactly_lib.execution.partial_execution.impl.atc_execution import ActionToCheckExecutor
 
 M.contract(P_EXE + ':_PartialExecutor._construct_act_phase_executor', params=dict(self=EXECUTOR),
-           props=('C08', 'C11'),
+           props=('C08', 'C11'), inline=True,
            ensures={
                'the act set, as the setup phase left it': lambda self, result:
                result.atc_input.environ is self._setup_settings_handler.builder.environ,
@@ -914,14 +904,9 @@ class SdsI(Interface):
     attrs = {'act_dir': Iface(PrimitivePathI), 'internal_tmp_dir': Any_}
 
 
-def _construct_and_set_sds(interp, args, kwargs):
-    """_PartialExecutor._construct_and_set_sds: creates the sandbox directory structure (C04) and stores it"""
-    (self,) = args
-    object.__setattr__(self, '_PartialExecutor__sandbox_directory_structure', Iface(SdsI).make(interp, 'sds'))
-    interp.st.emit('sds-constructed')
-
-
-M.model(pexe._PartialExecutor.__dict__['_construct_and_set_sds'], _construct_and_set_sds)
+M.contract(P_EXE + ':_PartialExecutor._construct_and_set_sds', trusted=True,
+           params=dict(self=Any_), event='sds-constructed',
+           modifies={'self._PartialExecutor__sandbox_directory_structure': Iface(SdsI)})
 M.trust('_PartialExecutor._construct_and_set_sds creates the sandbox and stores it in the executor (C04); it does '
         'not touch settings, symbols or the current directory')
 
@@ -940,16 +925,16 @@ def _mk_executor_before_sds(interp, name):
 
 
 M.contract(P_EXE + ':_PartialExecutor._setup_post_sds_environment', params=dict(self=Custom(_mk_executor_before_sds)),
-           props=('C08', 'C11'),
+           props=('C08', 'C11'), inline=True,
            ensures={
                'C08: the execution-time table starts as a copy of the predefined symbols': lambda self:
                table_view(self._PartialExecutor__post_sds_symbol_table) == table_view(self.exe_conf.predefined_symbols)
                and self._PartialExecutor__post_sds_symbol_table is not self.exe_conf.predefined_symbols
                and table_view(self._PartialExecutor__post_sds_symbol_table)
                is not table_view(self.exe_conf.predefined_symbols),
-               'C11: the current directory is the act directory of the new sandbox': lambda self, trace, ghost:
+               'C11: the current directory is the act directory of the new sandbox': lambda self, trace:
                [e[0] for e in trace if e[0] in ('sds-constructed', 'chdir')] == ['sds-constructed', 'chdir']
-               and ghost.get('cwd') == str(self._PartialExecutor__sandbox_directory_structure.act_dir),
+               and os.getcwd() == str(self._PartialExecutor__sandbox_directory_structure.act_dir),
            }, may_raise=(OSError,), raises_only=())
 
 
@@ -1012,16 +997,6 @@ M.contract(P_ENV + ':ModifierSdvOfUnset.resolve',
 # --- the current directory of the process that runs Exactly is restored after the execution
 
 from exactly_lib.util.file_utils.misc_utils import preserved_cwd
-
-
-def _getcwd(interp, args, kwargs):
-    g = interp.st.ghost
-    if 'cwd' not in g:
-        g['cwd'] = Str.make(interp, 'cwd')
-    return g['cwd']
-
-
-M.model(os.getcwd, _getcwd)
 
 
 def cwd_is_preserved(directory):
